@@ -8,6 +8,8 @@ package interp
 import (
 	"fmt"
 	"go/types"
+	"golang.org/x/tools/go/ssa"
+	"sort"
 )
 
 // stubOutcome forks over ok / fail and logs the outcome.
@@ -93,6 +95,67 @@ func init() {
 			return tuple{true, []value(nil)}
 		}
 		return tuple{false, []value(nil)}
+	}
+	// func Load(cfg *Config, patterns ...string) ([]*Package, error): the go command is environment. The harness
+	// provides the packages the loader would return in the variable VhLoadResult of the calling package; a load
+	// failure is an arbitrary outcome.
+	intrinsics["golang.org/x/tools/go/packages.Load"] = func(fr *frame, args []value) value {
+		i := fr.i
+		pats := ""
+		for k, p := range args[1].([]value) {
+			if k > 0 {
+				pats += ","
+			}
+			pats += i.concValue(p, "package pattern").(string)
+		}
+		var g *ssa.Global
+		if c := fr.caller; c != nil && c.fn != nil && c.fn.Pkg != nil {
+			g = c.fn.Pkg.Var("VhLoadResult")
+		}
+		if g == nil {
+			i.path.abort("packages.Load: the calling package provides no VhLoadResult")
+		}
+		ok := i.stubOutcome("packages.Load")
+		i.envst.log = append(i.envst.log, "packages.Load:"+pats)
+		if !ok {
+			return tuple{[]value(nil), i.newError(fr, "stub: packages.Load failed")}
+		}
+		return tuple{*i.globalAddr(g), iface{}}
+	}
+	// func ReadFile(name string) ([]byte, error): the file system is environment; a readable file holds a text
+	// derived from its path, an unreadable one is an arbitrary outcome
+	intrinsics["os.ReadFile"] = func(fr *frame, args []value) value {
+		i := fr.i
+		path := i.concValue(args[0], "path").(string)
+		ok := i.stubOutcome("os.ReadFile")
+		i.envst.log = append(i.envst.log, "os.ReadFile:"+path)
+		if !ok {
+			return tuple{[]value(nil), i.newError(fr, "stub: read failed")}
+		}
+		return tuple{strBytes("content-of:" + path), iface{}}
+	}
+	// the handlebars library's process-wide partial registry is environment: registrations are recorded
+	const raymond = "github.com/aymerick/raymond"
+	intrinsics[raymond+".RegisterPartials"] = func(fr *frame, args []value) value {
+		i := fr.i
+		m := args[0].(*symMap)
+		var entries []string
+		if m != nil {
+			for _, e := range m.entries {
+				if e.live {
+					entries = append(entries, i.concValue(e.key, "partial name").(string)+"="+i.concValue(e.val, "partial source").(string))
+				}
+			}
+		}
+		sort.Strings(entries)
+		for _, e := range entries {
+			i.envst.log = append(i.envst.log, "raymond.RegisterPartial:"+e)
+		}
+		return nil
+	}
+	intrinsics[raymond+".RemoveAllPartials"] = func(fr *frame, args []value) value {
+		fr.i.envst.log = append(fr.i.envst.log, "raymond.RemoveAllPartials")
+		return nil
 	}
 	intrinsics["encoding/json.MarshalIndent"] = func(fr *frame, args []value) value {
 		it := args[0].(iface)
